@@ -50,6 +50,7 @@ declarations:
     return: the label
 - decl: void scale(double *v +rank(1), int n +implied(size(v)))
 - decl: enum Color { RED, BLUE }
+- decl: struct Pnt { int ix; double dy; }
 - decl: void countTo(int *last +intent(out))
   fstatements:
     f:
